@@ -34,27 +34,21 @@ func (h *EventHandler) OnAdd(obj any, _ bool) {
 		return
 	}
 
-	h.lock.Lock()
-	defer h.lock.Unlock()
-
-	var changed bool
-	for _, sub := range endpoints.Subsets {
-		for _, point := range sub.Addresses {
-			if _, ok := h.endpoints[point.IP]; !ok {
-				h.endpoints[point.IP] = lang.Placeholder
-				changed = true
-			}
-		}
-	}
-
-	if changed {
-		h.notify()
-	}
+	// the informer is filtered by name, so the added object is the whole truth:
+	// replace instead of merging, otherwise addresses that went away between the
+	// initial fetch and the informer's first list stay published.
+	h.Update(endpoints)
 }
 
 // OnDelete handles the endpoints delete events.
 func (h *EventHandler) OnDelete(obj any) {
 	endpoints, ok := obj.(*v1.Endpoints)
+	if !ok {
+		// the informer hands over a tombstone if it missed the delete event itself
+		if tombstone, isTombstone := obj.(cache.DeletedFinalStateUnknown); isTombstone {
+			endpoints, ok = tombstone.Obj.(*v1.Endpoints)
+		}
+	}
 	if !ok {
 		logx.Errorf("%v is not an object with type *v1.Endpoints", obj)
 		return
